@@ -231,7 +231,14 @@ def gen(rng):
     L += pre
     if has_main:
         L.append("while True:" + rng.choice(["", "", "  # main loop", " # forever:", "  #"]))
-        L += ["    " + b for b in body]
+        loop_lines = ["    " + b for b in body]
+        for _ in range(rng.choice([0, 0, 1, 2])):
+            # comment-only lines inside the loop body, at column 0 / less than the body's indent / deeper: they never end the loop
+            pos = rng.randint(1, len(loop_lines))
+            if pos < len(loop_lines) and loop_lines[pos].startswith("        "):
+                continue   # (not between an if header and its body)
+            loop_lines.insert(pos, rng.choice(["# ---- section ----", "#led.on()", "  # two spaces in", "        # deeper than the body", "# while True:", "#"]))
+        L += loop_lines
     tapes = {"D": {}, "A": {}, "P": {}}
     for d in devices:
         if d["kind"] == "button":
